@@ -2,7 +2,7 @@
    witnesses for the sharing that the current code still has. *)
 From Coq Require Import ZArith List Bool Lia.
 Import ListNotations.
-Require Import PyBase Heap HeapFacts HeapFrame HeapCopy HeapHistory HeapSim HeapOps HeapLinkerSim HeapProtect HeapLinkerCopySim.
+Require Import PyBase Heap HeapFacts HeapFrame HeapCopy HeapHistory HeapSim HeapOps HeapLinkerSim HeapProtect HeapLinkerCopySim HeapLinkerInit.
 Open Scope Z_scope.
 
 Fixpoint nodupb (l : list Z) : bool := match l with [] => true | x :: r => negb (zmem x r) && nodupb r end.
@@ -347,4 +347,28 @@ Example ex_linker_state_ok :
   sharing (run_hevents K0 (run_event K0 s_lk1 (ELinkerCopy 2)) linker_history) = [].
 Proof.
   split; [apply roots_okb_sound; vm_compute; reflexivity|]. vm_compute. repeat split; reflexivity.
+Qed.
+
+(* ---- hypotheses of linker_init_shares_only_submodels are satisfiable: two model instances, then Linker({601: a, 603: b});
+   the linker class (location 8) and the model class (location 4) are separate from both submodels *)
+Definition s_pre : state :=
+  run_events K0 (mkSt (class_heap 0 None ++ linker_class) [4%nat; 8%nat]) [EInit 0 (args list_span); EInit 0 (args list_span)].
+Definition lk_cells : list (Z * val) := [(601, VR (nth 2 (sroots s_pre) O)); (603, VR (nth 3 (sroots s_pre) O))].
+
+Example ex_linker_init_hypotheses :
+  let h := sh s_pre in
+  wf h /\ (forall l, In l (refs (mkObj KDict lk_cells)) -> (l < length h)%nat) /\
+  snd (init_M (h ++ [mkObj KDict lk_cells]) 8%nat K0 (linker_iargs (h ++ [mkObj KDict lk_cells]) K0 (length h) 117)) = true /\
+  (forall k x, In (k, VR x) lk_cells -> sep h x 8%nat /\ sep h x 4%nat).
+Proof.
+  assert (RO : roots_ok s_pre) by (apply roots_okb_sound; vm_compute; reflexivity).
+  destruct RO as (W & _ & Sp).
+  split; [exact W|]. split.
+  - intros l Hl. vm_compute in Hl. vm_compute. destruct Hl as [<-|[<-|[]]]; lia.
+  - split; [vm_compute; reflexivity|].
+    intros k x Hin. destruct Hin as [E|[E|[]]]; inversion E; subst; split.
+    + apply (Sp 2%nat 1%nat); [discriminate | reflexivity | reflexivity].
+    + apply (Sp 2%nat 0%nat); [discriminate | reflexivity | reflexivity].
+    + apply (Sp 3%nat 1%nat); [discriminate | reflexivity | reflexivity].
+    + apply (Sp 3%nat 0%nat); [discriminate | reflexivity | reflexivity].
 Qed.
